@@ -68,3 +68,177 @@ Definition mon_C05 (c : chain_case) (obs : val) : list Z :=
   if forallb (c05_snapshot_ok c) (trace_snapshots obs) then [] else [5].
 Definition mon_C16 (c : chain_case) (obs : val) : list Z :=
   if pairwise_ok c16_step_ok (trace_snapshots obs) then [] else [16].
+
+(* ====================================================================================================
+   Step monitors: decidable per-operation forms of the properties, evaluated on (operation, accepted?,
+   snapshot before, snapshot after) as OBSERVED ON THE IMPLEMENTATION. *)
+Definition vgetB (v : val) : bool := match v with VZ 1 => true | _ => false end.
+
+Fixpoint step_codes (chk : op -> bool -> val -> val -> list Z) (ops : list cop) (steps : list val) (prev : val) : list Z :=
+  match ops, steps with
+  | COp o :: ro, st :: rs =>
+      let cur := vnth 1 st in
+      (chk o (vgetB (vnth 0 st)) prev cur ++ step_codes chk ro rs cur)%list
+  | CQuery _ :: ro, _ :: rs => step_codes chk ro rs prev
+  | _, _ => []
+  end.
+Definition mon_steps (chk : chain_case -> op -> bool -> val -> val -> list Z) (c : chain_case) (obs : val) : list Z :=
+  match vlist obs with
+  | _ :: s0 :: steps => nodup Z.eq_dec (step_codes (chk c) (cc_ops c) steps s0)
+  | _ => []
+  end.
+
+Definition pool_id (p : val) : string := vgetS (vnth 0 p).
+Definition pool_is_cp (p : val) : bool := match vlist (vnth 4 p) with [VZ 0] => true | _ => false end.
+Definition pool_flags (p : val) : bool * bool * bool :=      (* swaps, deposits, withdrawals *)
+  let f := vnth 7 p in (vgetB (vnth 0 f), vgetB (vnth 1 f), vgetB (vnth 2 f)).
+Definition find_pool (s : val) (id : string) : option val := find (fun p => String.eqb (pool_id p) id) (snap_pools s).
+Definition prodZ (l : list (string * Z)) : Z := fold_left (fun acc c => acc * snd c) l 1.
+Definition supply_of (c : chain_case) (s : val) (d : string) : Z :=
+  match find (fun dj => String.eqb (fst dj) d) (combine (denoms_of_snapshot c s) (map vgetZ (vlist (vnth 1 s)))) with
+  | Some dj => snd dj | None => 0 end.
+Definition pm_balance_of (c : chain_case) (s : val) (d : string) : Z :=
+  match find (fun dj => String.eqb (fst dj) d) (combine (denoms_of_snapshot c s) (balance_row s 2)) with
+  | Some dj => snd dj | None => 0 end.
+Definition reserves_of (s : val) (d : string) : Z :=
+  sum_where snd (fun r => String.eqb (fst r) d) (flat_map pool_assets (snap_pools s)).
+
+Definition is_tx_pm (o : op) : option (string * pm_msg * list coin) :=
+  match o with Tx sender target (WPm m) funds => if String.eqb target PM then Some (sender, m, funds) else None | _ => None end.
+
+(* C03: a swap or a route never lowers x*y of a constant-product pool *)
+Definition chk_C03 (c : chain_case) (o : op) (ok : bool) (prev cur : val) : list Z :=
+  match is_tx_pm o with
+  | Some (_, PmSwap _ _ _ _ _, _) | Some (_, PmRoute _ _ _ _, _) =>
+      if ok && negb (forallb (fun p => negb (pool_is_cp p) ||
+                                match find_pool cur (pool_id p) with
+                                | Some q => prodZ (pool_assets p) <=? prodZ (pool_assets q)
+                                | None => false end) (snap_pools prev))
+      then [3] else []
+  | _ => []
+  end.
+
+(* C02: value per LP token of a constant-product pool (x*y/S^2) never decreases through a deposit or a withdrawal;
+   LP supplies move only through deposits and withdrawals *)
+Definition chk_C02 (c : chain_case) (o : op) (ok : bool) (prev cur : val) : list Z :=
+  if negb ok then [] else
+  match is_tx_pm o with
+  | Some (_, PmProvide _ _ _ _ _ _, _) | Some (_, PmWithdraw _, _) =>
+      if forallb (fun p => negb (pool_is_cp p) ||
+                    match find_pool cur (pool_id p) with
+                    | Some q => let s0 := supply_of c prev (pool_lp p) in let s1 := supply_of c cur (pool_lp p) in
+                                prodZ (pool_assets p) * (s1 * s1) <=? prodZ (pool_assets q) * (s0 * s0)
+                    | None => false end) (snap_pools prev)
+      then [] else [2]
+  | _ =>
+      if forallb (fun p => supply_of c prev (pool_lp p) =? supply_of c cur (pool_lp p)) (snap_pools prev) then [] else [2]
+  end.
+
+(* C04: through a swap or a route the pool manager's balance moves exactly as the reported reserves do
+   (everything that leaves the reserves is sent or burned, everything offered is added) *)
+Definition recv_is_pm (r : option string) : bool := match r with Some a => String.eqb a PM | None => false end.
+Definition chk_C04 (c : chain_case) (o : op) (ok : bool) (prev cur : val) : list Z :=
+  match is_tx_pm o with
+  | Some (_, PmSwap _ _ _ r _, _) | Some (_, PmRoute _ _ r _, _) =>
+      if ok && negb (recv_is_pm r) &&
+         negb (forallb (fun d => pm_balance_of c cur d - pm_balance_of c prev d =? reserves_of cur d - reserves_of prev d)
+                       (denoms_of_snapshot c prev))
+      then [4] else []
+  | _ => []
+  end.
+
+(* C06: no farm ever pays out more than it was funded with *)
+Definition chk_C06 (c : chain_case) (o : op) (ok : bool) (prev cur : val) : list Z :=
+  if forallb (fun f => vgetZ (vnth 4 f) <=? vgetZ (vnth 1 (vnth 3 f))) (snap_farms cur) then [] else [6].
+
+(* C08: a transaction only creates or changes positions of its sender *)
+Definition position_owner (p : val) : string := vgetS (vnth 5 p).
+Definition position_id (p : val) : string := vgetS (vnth 0 p).
+Definition chk_C08 (c : chain_case) (o : op) (ok : bool) (prev cur : val) : list Z :=
+  match o with
+  | Tx sender _ _ _ =>
+      if String.eqb sender PM then [] else   (* the pool manager's own address acting as a depositor's agent (role tests) *)
+      if forallb (fun p => String.eqb (position_owner p) sender ||
+                           existsb (fun q => val_eqb p q) (snap_positions prev)) (snap_positions cur) &&
+         forallb (fun p => String.eqb (position_owner p) sender ||
+                           existsb (fun q => val_eqb p q) (snap_positions cur)) (snap_positions prev)
+      then [] else [8]
+  | _ => []
+  end.
+
+(* C11: identity, owner, LP token, reward denom, rate and start of a farm never change; funded and claimed only grow *)
+Definition farm_static (f : val) : val := VL [vnth 0 f; vnth 1 f; vnth 2 f; vnth 0 (vnth 3 f); vnth 5 f; vnth 6 f].
+Definition chk_C11 (c : chain_case) (o : op) (ok : bool) (prev cur : val) : list Z :=
+  if forallb (fun f => match find (fun g => val_eqb (vnth 0 f) (vnth 0 g)) (snap_farms cur) with
+                       | None => true
+                       | Some g => val_eqb (farm_static f) (farm_static g) &&
+                                   (vgetZ (vnth 1 (vnth 3 f)) <=? vgetZ (vnth 1 (vnth 3 g))) &&
+                                   (vgetZ (vnth 4 f) <=? vgetZ (vnth 4 g)) && (vgetZ (vnth 7 f) <=? vgetZ (vnth 7 g))
+                       end) (snap_farms prev)
+  then [] else [11].
+
+(* C14: no single-asset bookkeeping survives a transaction *)
+Definition chk_C14 (c : chain_case) (o : op) (ok : bool) (prev cur : val) : list Z :=
+  if vgetB (vnth 3 (vnth 4 cur)) then [14] else [].
+
+(* C15: configuration and ownership records change only through a transaction of the owner (or, for ownership, of
+   the proposed owner) *)
+Definition owner_of (own : val) : list string := map vgetS (vlist (vnth 0 own)).
+Definition pending_of (own : val) : list string := map vgetS (vlist (vnth 1 own)).
+Definition may_change (own : val) (o : op) (with_pending : bool) : bool :=
+  match o with
+  | Tx sender _ _ _ => existsb (String.eqb sender) (owner_of own) || (with_pending && existsb (String.eqb sender) (pending_of own))
+  | _ => false
+  end.
+Definition pool_flag_table (s : val) : val := VL (map (fun p => VL [vnth 0 p; vnth 7 p]) (snap_pools s)).
+Definition drop_new_pools (prev cur : val) : val :=
+  VL (map (fun p => VL [vnth 0 p; vnth 7 p]) (filter (fun p => match find_pool prev (pool_id p) with Some _ => true | None => false end) (snap_pools cur))).
+Definition chk_C15 (c : chain_case) (o : op) (ok : bool) (prev cur : val) : list Z :=
+  let em_own := vnth 1 (vnth 2 prev) in
+  let pm_own := vnth 1 (vnth 4 prev) in
+  let fm_own := vnth 1 (vnth 6 prev) in
+  let same i j := val_eqb (vnth j (vnth i prev)) (vnth j (vnth i cur)) in
+  if (same 2%nat 0%nat || may_change em_own o false) &&
+     (same 2%nat 1%nat || may_change em_own o true) &&
+     (val_eqb (vnth 3 prev) (vnth 3 cur) || may_change (vnth 3 prev) o true) &&
+     (same 4%nat 0%nat || may_change pm_own o false) &&
+     (same 4%nat 1%nat || may_change pm_own o true) &&
+     (val_eqb (pool_flag_table prev) (drop_new_pools prev cur) || may_change pm_own o false) &&
+     (same 6%nat 0%nat || may_change fm_own o false) &&
+     (same 6%nat 1%nat || may_change fm_own o true)
+  then [] else [15].
+
+(* C17: an operation whose switch is off for a pool it touches is never accepted *)
+Definition flag_ok (prev : val) (pid : string) (sel : bool * bool * bool -> bool) : bool :=
+  match find_pool prev pid with Some p => sel (pool_flags p) | None => true end.
+Definition chk_C17 (c : chain_case) (o : op) (ok : bool) (prev cur : val) : list Z :=
+  if negb ok then [] else
+  match is_tx_pm o with
+  | Some (_, PmSwap _ _ _ _ pid, _) => if flag_ok prev pid (fun f => fst (fst f)) then [] else [17]
+  | Some (_, PmRoute ops _ _ _, _) => if forallb (fun so => flag_ok prev (so_pool so) (fun f => fst (fst f))) ops then [] else [17]
+  | Some (_, PmProvide _ _ _ pid _ _, funds) =>
+      if flag_ok prev pid (fun f => snd (fst f)) &&
+         (negb (Nat.eqb (List.length funds) 1) || flag_ok prev pid (fun f => fst (fst f))) then [] else [17]
+  | Some (_, PmWithdraw pid, _) => if flag_ok prev pid snd then [] else [17]
+  | _ => []
+  end.
+
+(* C20: a rejected operation leaves everything observable unchanged *)
+Definition chk_C20 (c : chain_case) (o : op) (ok : bool) (prev cur : val) : list Z :=
+  if ok || val_eqb prev cur then [] else [20].
+
+Definition both (a b : chain_case -> val -> list Z) (c : chain_case) (obs : val) : list Z := (a c obs ++ b c obs)%list.
+Definition mon_C02 := mon_steps chk_C02.
+Definition mon_C03 := mon_steps chk_C03.
+Definition mon_C04 := mon_steps chk_C04.
+Definition mon_C06 := mon_steps chk_C06.
+Definition mon_C08 := mon_steps chk_C08.
+Definition mon_C11 := mon_steps chk_C11.
+Definition mon_C14 := mon_steps chk_C14.
+Definition mon_C15 := mon_steps chk_C15.
+Definition mon_C17 := mon_steps chk_C17.
+Definition mon_C20 := mon_steps chk_C20.
+Definition mon_C01s := both mon_C01 mon_C04.   (* reserves backed, and moved exactly with the balance by swaps *)
+Definition mon_all (c : chain_case) (obs : val) : list Z :=
+  (mon_C01 c obs ++ mon_C05 c obs ++ mon_C16 c obs ++ mon_C02 c obs ++ mon_C03 c obs ++ mon_C04 c obs ++ mon_C06 c obs ++
+   mon_C08 c obs ++ mon_C11 c obs ++ mon_C14 c obs ++ mon_C15 c obs ++ mon_C17 c obs ++ mon_C20 c obs)%list.
